@@ -13,7 +13,6 @@ import (
 	"fmt"
 	"os"
 	"runtime/debug"
-	"runtime/pprof"
 	"sort"
 	"strconv"
 	"strings"
@@ -446,7 +445,11 @@ func evaluate(b *rig.Built, cls map[string]class, c *Case) result {
 				want = append(want, loc.String()) // evaluated expression, placed correctly
 				continue
 			}
-			return fail("accepted:"+strOr(effectOf(hits, ""), "written_unrouted"), r.class.Name,
+			eff := strOr(effectOf(hits, ""), "written_unrouted")
+			if ok && len(hits) == 1 {
+				eff = "wrong_table" // its value has a table, and that is not where it went
+			}
+			return fail("accepted:"+eff, r.class.Name,
 				fmt.Sprintf("sharding value %s cannot be routed but the statement was accepted", r.class.SQL))
 		}
 		want = append(want, loc.String())
@@ -577,7 +580,7 @@ func printTallies() {
 func layouts(r *ev.Run) []rig.Layout {
 	var shapes [][2]int
 	if r.Quick() {
-		shapes = [][2]int{{1, 2}, {2, 1}, {2, 2}, {3, 1}, {1, 4}, {4, 1}}
+		shapes = [][2]int{{1, 1}, {1, 2}, {2, 1}, {2, 2}, {3, 1}, {1, 4}, {4, 1}}
 	} else {
 		for s := 1; s <= 4; s++ {
 			for p := 1; p <= 4; p++ {
@@ -743,11 +746,6 @@ func main() {
 		r.Finish()
 	}
 
-	if f := os.Getenv("C03_PROF"); f != "" {
-		fh, _ := os.Create(f)
-		pprof.StartCPUProfile(fh)
-		defer pprof.StopCPUProfile()
-	}
 	debug.SetGCPercent(400)
 	ls := layouts(r)
 	o0 := options(0)
@@ -774,13 +772,12 @@ func main() {
 		r.Capped(fmt.Sprintf("%d of %d layouts completed", done, len(ls)))
 	}
 	r.Set("layouts", len(ls))
-	r.Set("bound", fmt.Sprintf("%d layouts (11 rule types x {own table, linked child} + global; slices x tables-per-slice shapes: %s); per layout: %s; plus one point SELECT per routable literal class", len(ls), map[bool]string{true: "1x2 2x1 2x2 3x1 1x4 4x1 (linked children: 1x2 2x2 3x1)", false: "all of 1-4 x 1-4"}[r.Quick()], bound))
+	r.Set("bound", fmt.Sprintf("%d layouts (11 rule types x {own table, linked child} + global; slices x tables-per-slice shapes: %s); per layout: %s; plus one point SELECT per routable literal class", len(ls), map[bool]string{true: "1x1 1x2 2x1 2x2 3x1 1x4 4x1 (linked children: 1x2 2x2 3x1)", false: "all of 1-4 x 1-4"}[r.Quick()], bound))
 	r.Set("rule", "every statement of the bounded universe is enumerated (no sampling). distinct_nontrivial counts distinct (layout, form, value-class vector, outcome) with default options where the outcome is either a verified placement of every row in its physical table or a rejection that the oracle demanded (a row with an unroutable sharding value), plus distinct (layout, class) point lookups that were pruned to exactly the table of the inserted row")
 	r.Assume("Rule.FindTableIndex is the reference for where a sharding value lives (its agreement with Mycat / the rule definitions is the subject of C07-C09)")
 	r.Assume("a panic inside BuildPlan is recovered by handleQuery and therefore counts as a rejection")
 	r.Assume("time zone UTC for integer keys of calendar rules")
 	printTallies()
-	pprof.StopCPUProfile()
 	if r.Count("routable_literal_classes") < int64(4*len(ls))/2 {
 		ev.Fatalf("vacuous run: only %d routable literal classes over %d layouts", r.Count("routable_literal_classes"), len(ls))
 	}
